@@ -27,10 +27,21 @@ def run(ctx):
         protocheck.roundtrip_stream(ctx, g, batch, ir, auxinfo, bs, "RT%d" % i)
         ctx.case(repr(bs), len(bs) > 60)
     # dedicated stream for the recorded finding: entry point in a later module
-    for i in range(3):
-        ir, auxinfo = irgen.gen_ir(g, ctx.rng, cov, n_modules=2, entry_later=True, with_aux=False)
+    def fixed_d7():
+        ir = g.IR()
+        m1, m2 = g.Module(name="first", ir=ir), g.Module(name="second", ir=ir)
+        bi = g.ByteInterval(size=4, section=g.Section(name="s", module=m2))
+        m1.entry_point = g.CodeBlock(size=1, byte_interval=bi)
+        return ir, []
+    found, tries = 0, 0
+    while found < 3 and tries < 60:
+        tries += 1
+        # the first case is a fixed minimal one, so that the recorded finding is reproduced on every run whatever the seed
+        ir, auxinfo = fixed_d7() if tries == 1 else irgen.gen_ir(g, ctx.rng, cov, n_modules=2, entry_later=True, with_aux=False)
         if not protocheck.is_d7(g, ir):
             continue
+        found += 1
+        i = found
         bs = protocheck.save_bytes(ir)
         protocheck.roundtrip_stream(ctx, g, batch, ir, auxinfo, bs, "D7-%d" % i)
         ctx.case(repr(bs), True)
